@@ -222,6 +222,7 @@ any_spawner = "0.2"
 futures = { version = "0.3", features = ["executor"] }
 serde_json = "1"
 codee = "0.3"
+writeable = "0.5"
 icu_locid_transform = { version = "1.5", features = ["compiled_data"] }
 
 [package.metadata.leptos-i18n]%s
